@@ -81,6 +81,13 @@ def arg_pool():
     le_x = np.array([513, 1027, 260, 2050, 771, 1285], dtype="<u2")
     le_y = np.array([258, 1540, 515, 1029, 2056, 774], dtype="<u2")
     be_x, be_y = le_x.view(">u2"), le_y.view(">u2")
+    # the same memory seen with swapped axes (a view, no copy)
+    X2 = (np.arange(16, dtype=float).reshape(4, 4) * 1.5 + 0.25)
+    Y2 = X2 * 0.7 + np.arange(4)[:, None]
+    pool += [
+        ("downsample_grid", (X2, Y2, 5), {}, "2-D"),
+        ("downsample_grid", (X2.T, Y2.T, 5), {}, "2-D transposed view"),
+    ]
     pool += [
         ("downsample_grid", (le_x, le_y, 3), {}, "u2 little endian"),
         ("downsample_grid", (be_x, be_y, 3), {}, "u2 big endian, same bytes"),
@@ -172,8 +179,11 @@ class CacheDriver(explore.Driver):
         i = op[1]
         fname, args, kwargs, label = self.pool[i]
         cached_fn, raw_fn = st.funcs[fname]
-        cargs = tuple(a.copy() if isinstance(a, np.ndarray) and label !=
-                      "strided" else a for a in args)
+        # (copies, so that a cached result can never alias the pool; views
+        # whose memory layout is the point are passed as they are)
+        keep = "strided" in label or "view" in label
+        cargs = tuple(a.copy() if isinstance(a, np.ndarray) and not keep
+                      else a for a in args)
         try:
             exp = ("val", _as_list(raw_fn(*args, **kwargs)))
         except Exception as e:
